@@ -106,6 +106,15 @@ def generate(rng, tier, seed):
                     if not r.ok or r.value != exp:
                         c.fail(f"xor({data.hex()}, {key.hex()}) = {r.value.hex() if r.ok else r.err}, expected {exp.hex()}")
                     yield c
+    # the same object as data and mask (the result is all zero, the object is left alone)
+    for n in (0, 1, 8, 16, 25):
+        for mk in (bytes, bytearray):
+            a = mk(rng.getrandbits(8) for _ in range(n))
+            c = Case("xor:same-object", {"len": n, "type": mk.__name__})
+            r = c.call("tools.xor", a, a)
+            if not r.ok or bytes(r.value) != bytes(n):
+                c.fail("xor of an object with itself is not all zero")
+            yield c
     # parity helper
     vals = list(range(1 << 16)) + [rng.getrandbits(32) for _ in range(4000 if tier == "quick" else 60000)]
     vals += [0xFFFFFFFF, 0x80000000, 0x7FFFFFFF, 0x10000, 0xFFFF0000]
